@@ -949,9 +949,16 @@ class SyncObj(object):
 
             # Install snapshot
             elif serialized is not None:
-                if self.__serializer.setTransmissionData(serialized):
-                    self.__loadDumpFile(clearJournal=True)
-                    self.__sendNextNodeIdx(node, success=True)
+                if not self.__serializer.setTransmissionData(serialized):
+                    # Snapshot is not complete yet, the log was not checked against
+                    # the leader's one, so the commit index must not be touched.
+                    return
+                self.__loadDumpFile(clearJournal=True)
+                self.__sendNextNodeIdx(node, success=True)
+
+            else:
+                # Leader has nothing to send yet (snapshot is being prepared)
+                return
 
             if leaderCommitIndex > self.__raftCommitIndex:
                 self.__raftCommitIndex = min(leaderCommitIndex, self.__getCurrentLogIndex())
